@@ -21,11 +21,12 @@ the property ("… the designer front-end or the finisher can process") is valid
 (c) `emitted_has_no_zero_length`: the emitted statements of a loaded component contain no `sequence` with an
     empty template, no declaration of a zero-length object, and every item of an emitted `sup-sequence` /
     `strand` statement is (a view of) a table entry of non-zero length, which is itself declared.
-Top level: `inert` (named reference: `denoteComp src' = denoteComp src`) and `inert_quoted_partial` (quoted
-region: related by `CompRel ρ 1`; PARTIAL in that the renaming `ρ` is a parameter — its existence for sources with
-`UserNamesOk` is not derived here).  Both need that no *later* structure statement is domain-level: a
-domain-level structure counts the segments of its strands, its notation has to change with them
-(`domain_level_counterexample`).
+Top level: `inert` (named reference: `denoteComp src' = denoteComp src`) and `inert_quoted` (quoted region: the
+two denotations are related by `CompRel (shiftFull pfx n1 1) 1` — same error, or `Out` and ports with
+`pfx ++ _Anon m ↦ pfx ++ _Anon (m+1)` from the insertion point `n1` on and the counter one higher; `shiftFull_spec`
+says what that renaming is; `inert_quoted_general` is the same for any renaming with the needed properties).
+Both need that no *later* structure statement is domain-level: a domain-level structure counts the segments of
+its strands, its notation has to change with them (`domain_level_counterexample`).
 
 Definitions (`blocks`, `insSeg`, `InsStmt`, `InsertZero`, `rnOut`, `CompRel`, `SeqsRel`, `RenumP`, `fixedNucs`,
 `blkCount`, `flat3`, `nz3`, `rn3`, `ExRel`, `Inv`) are in `PepperProofs/DenoteZero.lean`.
@@ -169,14 +170,13 @@ theorem inert (pfx : String) (a : Nat) (src src' : Src) (t i : Nat) (z : String)
     denoteComp src' pfx a = denoteComp src pfx a :=
   inert_ref pfx a src src' t i z star h hz hplain
 
-/-- **Inert, quoted region (PARTIAL).**  `src'` is `src` with a zero-length quoted region inserted.  Then
+/-- **Inert, quoted region, general form.**  `src'` is `src` with a zero-length quoted region inserted.  Then
     `denoteComp src'` fails iff `denoteComp src` does, with the same error, and otherwise `Out` and the ports are
-    those of `src` with the anonymous domains renamed by `ρ` and the counter one higher (`CompRel ρ 1`).
-    What is missing: `ρ` is a parameter.  It must fix everything the statements before `t` produced (`hpre`),
-    `_Anon m` below the insertion point `n1`, the full names of the sequences defined from `t` on (`hok`), and map
-    `_Anon m ↦ _Anon (m+1)` from `n1` on; that such a renaming exists whenever the source's names are not of the
-    reserved form is not derived here (on the compile side the analogous fact is `C18.anon_equivariant`). -/
-theorem inert_quoted_partial (pfx : String) (a : Nat) (src src' : Src) (t i : Nat) (text : List Char)
+    those of `src` with the anonymous domains renamed by `ρ` and the counter one higher (`CompRel ρ 1`), for any
+    renaming `ρ` that fixes everything the statements before `t` produced (`hpre`), `_Anon m` below the insertion
+    point `n1`, the full names of the sequences defined from `t` on (`hok`, which also says that no structure from
+    `t` on is domain-level), and maps `_Anon m ↦ _Anon (m+1)` from `n1` on. -/
+theorem inert_quoted_general (pfx : String) (a : Nat) (src src' : Src) (t i : Nat) (text : List Char)
     (h : InsertZero src src' t i (.nuc text)) (hq : resolve (parseQuoted text) none = .ok (0, []))
     (ρ : String → String) (n1 : Nat)
     (hpre : ∀ env o, denoteStmts pfx (src.stmts.take t) { anon := a } {} = .ok (env, o) →
@@ -187,7 +187,81 @@ theorem inert_quoted_partial (pfx : String) (a : Nat) (src src' : Src) (t i : Na
     (hr : RenumP ρ pfx n1 1)
     (hok : ∀ s ∈ src.stmts.drop t, stmtOk ρ pfx s) :
     ExRel (CompRel ρ 1) (denoteComp src pfx a) (denoteComp src' pfx a) :=
-  inert_quoted pfx a src src' t i text h hq ρ n1 hpre hlt hr hok
+  DenoteZero.inert_quoted pfx a src src' t i text h hq ρ n1 hpre hlt hr hok
+
+/-- the renumbering of full names used in `inert_quoted`: `pfx ++ _Anon m ↦ pfx ++ _Anon (m+k)` for `m ≥ n`;
+    `pfx ++ _Anon m` for `m < n`, `pfx ++ x` for every `x` not of the reserved form, and (by definition) every name
+    that does not start with `pfx` are left alone; it is injective -/
+theorem shiftFull_spec (pfx : String) (n k : Nat) :
+    (∀ m, n ≤ m → shiftFull pfx n k (pfx ++ "_Anon" ++ toString m) = pfx ++ "_Anon" ++ toString (m + k)) ∧
+    (∀ m, m < n → shiftFull pfx n k (pfx ++ "_Anon" ++ toString m) = pfx ++ "_Anon" ++ toString m) ∧
+    (∀ x, isAnon x = false → shiftFull pfx n k (pfx ++ x) = pfx ++ x) ∧
+    (∀ s t, shiftFull pfx n k s = shiftFull pfx n k t → s = t) :=
+  ⟨shiftFull_renum pfx n k, fun _ hm => shiftFull_lt pfx n k hm, fun _ hx => shiftFull_user pfx n k hx,
+   fun _ _ h => shiftFull_injective pfx n k h⟩
+
+/-- **Inert, quoted region.**  `src'` is `src` with a quoted region that resolves to length 0 inserted at position
+    `i` of the item list of statement number `t` (a super-sequence or strand statement; for a `sequence` statement
+    neither item list may be the single-quoted-region notation of an atomic sequence: `InsStmt`).  If no
+    sequence name defined in `src` has the reserved form and no structure statement after `t` is domain-level,
+    then for some counter value `n1` (the counter at the insertion point): `denoteComp src'` fails iff
+    `denoteComp src` does, with the same error, and otherwise its `Out` is that of `src` with every domain name
+    renamed by `shiftFull pfx n1 1` (the anonymous domains from `n1` on are renumbered by one, nothing else moves),
+    its ports are the renamed ports, and its counter is one higher. -/
+theorem inert_quoted (pfx : String) (a : Nat) (src src' : Src) (t i : Nat) (text : List Char)
+    (h : InsertZero src src' t i (.nuc text)) (hq : resolve (parseQuoted text) none = .ok (0, []))
+    (hnames : ∀ name items len, Stmt.seq name items len ∈ src.stmts → isAnon name = false)
+    (hplain : ∀ s ∈ src.stmts.drop (t + 1), ∀ opt name strands domain text,
+      s = .struct opt name strands domain text → domain = false) :
+    ∃ n1, ExRel (CompRel (shiftFull pfx n1 1) 1) (denoteComp src pfx a) (denoteComp src' pfx a) :=
+  inert_quoted_concrete pfx a src src' t i text h hq hnames hplain
+
+/-- what `ExRel (CompRel ρ k)` says, spelled out -/
+theorem compRel_spec (ρ : String → String) (k : Nat)
+    (x y : Except Denote.Err (Out × List (List Nuc × Bool) × Nat)) :
+    ExRel (CompRel ρ k) x y ↔
+      (∃ e, x = .error e ∧ y = .error e) ∨
+      (∃ o ports n, x = .ok (o, ports, n) ∧ y = .ok (rnOut ρ o, ports.map (fun p => (rnSeg ρ p.1, p.2)), n + k)) := by
+  cases x with
+  | error e =>
+    cases y with
+    | error e' =>
+      simp only [ExRel]
+      constructor
+      · rintro rfl; exact Or.inl ⟨e, rfl, rfl⟩
+      · rintro (⟨e0, h1, h2⟩ | ⟨o, ports, n, h1, _⟩)
+        · injection h1 with h1; injection h2 with h2; rw [h1, h2]
+        · cases h1
+    | ok r =>
+      simp only [ExRel]
+      constructor
+      · intro h; exact h.elim
+      · rintro (⟨e0, _, h2⟩ | ⟨o, ports, n, h1, _⟩)
+        · cases h2
+        · cases h1
+  | ok r =>
+    cases y with
+    | error e' =>
+      simp only [ExRel]
+      constructor
+      · intro h; exact h.elim
+      · rintro (⟨e0, h1, _⟩ | ⟨o, ports, n, _, h2⟩)
+        · cases h1
+        · cases h2
+    | ok r' =>
+      obtain ⟨o, ports, n⟩ := r
+      obtain ⟨o', ports', n'⟩ := r'
+      simp only [ExRel, CompRel]
+      constructor
+      · rintro ⟨h1, h2, h3⟩
+        exact Or.inr ⟨o, ports, n, rfl, by rw [h1, h2, h3]⟩
+      · rintro (⟨e0, h1, _⟩ | ⟨o0, ports0, n0, h1, h2⟩)
+        · cases h1
+        · injection h1 with h1
+          injection h2 with h2
+          simp only [Prod.mk.injEq] at h1 h2
+          obtain ⟨rfl, rfl, rfl⟩ := h1
+          exact ⟨h2.1, h2.2.1, h2.2.2⟩
 
 /-! ### non-vacuity -/
 
@@ -215,6 +289,11 @@ def exSrcQuoted : Src :=
 
 example : resolve (parseQuoted "0N".toList) none = .ok (0, []) := by decide +kernel
 
+example : InsertZero exSrc exSrcQuoted 2 0 (.nuc "0N".toList) :=
+  ⟨rfl, rfl, [.seq "z" [.nuc "0N".toList] none, .seq "x" [.nuc "4N".toList] none], _, _,
+    [.struct .default "S" ["s"] false "((((..))))".toList], rfl, rfl, rfl,
+    InsStmt.strand false "s" [.ref "x" false, .nuc "2A".toList, .ref "x" true] none⟩
+
 example : InsertZero exSrc exSrcRef 2 1 (.ref "z" true) :=
   ⟨rfl, rfl, [.seq "z" [.nuc "0N".toList] none, .seq "x" [.nuc "4N".toList] none], _, _,
     [.struct .default "S" ["s"] false "((((..))))".toList], rfl, rfl, rfl,
@@ -226,6 +305,33 @@ example : (obsComp (denoteComp exSrc "c-" 0)).map (fun r => (r.domains, r.anon))
 
 /-- … and the variant with `z*` inserted denotes exactly the same -/
 example : obsComp (denoteComp exSrcRef "c-" 0) = obsComp (denoteComp exSrc "c-" 0) := by decide +kernel
+
+/-- the hypotheses of `inert` are satisfiable: the theorem applied to the concrete pair -/
+example : denoteComp exSrcRef "c-" 0 = denoteComp exSrc "c-" 0 := by
+  refine inert "c-" 0 exSrc exSrcRef 2 1 "z" true
+    ⟨rfl, rfl, [.seq "z" [.nuc "0N".toList] none, .seq "x" [.nuc "4N".toList] none], _, _,
+      [.struct .default "S" ["s"] false "((((..))))".toList], rfl, rfl, rfl,
+      InsStmt.strand false "s" [.ref "x" false, .nuc "2A".toList, .ref "x" true] none⟩ ?_ ?_
+  · intro env o h
+    have h1 : exSrc.stmts.take 2 = [.seq "z" [.nuc "0N".toList] none, .seq "x" [.nuc "4N".toList] none] := rfl
+    have r0 : resolve (parseQuoted "0N".toList) none = .ok (0, []) := by decide +kernel
+    have r4 : resolve (parseQuoted "4N".toList) none = .ok (4, "NNNN".toList) := by decide +kernel
+    rw [h1] at h
+    simp only [denoteStmts] at h
+    rw [zero_definition_adds_nothing "c-" _ _ "z" _ none r0 rfl] at h
+    simp only [denoteStmt_atom, r4] at h
+    simp only [List.nil_append, List.lookup] at h
+    have hx : ("x" == "z") = false := by decide
+    simp only [hx, Option.isSome_none, Bool.false_eq_true, if_false, Except.ok.injEq, Prod.mk.injEq] at h
+    obtain ⟨rfl, _⟩ := h
+    exact ⟨⟨[], [[]], false⟩, by simp [atomResult], rfl⟩
+  · intro s hs opt name strands domain text he
+    have : exSrc.stmts.drop 3 = [.struct .default "S" ["s"] false "((((..))))".toList] := rfl
+    rw [this] at hs
+    simp only [List.mem_singleton] at hs
+    subst hs
+    injection he with _ _ _ h4 _
+    exact h4.symm
 
 /-- the variant with `"0N"` inserted consumes `_Anon0` for it: the real region becomes `_Anon1`, the counter 2;
     the domains that remain are the same up to that renumbering -/
